@@ -9,6 +9,9 @@ mod c01;
 #[cfg(any(verif_all, verif_c05))]
 #[path = "/verif/harness/daemon/c05.rs"]
 mod c05;
+#[cfg(any(verif_all, verif_c07))]
+#[path = "/verif/harness/daemon/c07.rs"]
+mod c07;
 #[cfg(any(verif_all, verif_c08))]
 #[path = "/verif/harness/daemon/c08.rs"]
 mod c08;
@@ -18,12 +21,20 @@ mod c09;
 #[cfg(any(verif_all, verif_c10))]
 #[path = "/verif/harness/daemon/c10.rs"]
 mod c10;
+#[cfg(any(verif_all, verif_c11))]
+#[path = "/verif/harness/daemon/c11.rs"]
+mod c11;
 #[cfg(any(verif_all, verif_c14))]
 #[path = "/verif/harness/daemon/c14.rs"]
 mod c14;
 #[cfg(any(verif_all, verif_c16))]
 #[path = "/verif/harness/daemon/c16.rs"]
 mod c16;
+// C17 lives here (not under main_hook.rs) because it drives `GrpcService`, which is `pub(super)` in `event`;
+// `crate::convert` is reachable from here as well.
+#[cfg(any(verif_all, verif_c17))]
+#[path = "/verif/harness/daemon/c17.rs"]
+mod c17;
 #[cfg(any(verif_all, verif_c18))]
 #[path = "/verif/harness/daemon/c18.rs"]
 mod c18;
